@@ -7,6 +7,7 @@ import (
 	"math"
 	"os"
 	"path/filepath"
+	"sort"
 	"strings"
 	"sync/atomic"
 	"time"
@@ -320,6 +321,33 @@ func (w *vfWorld) Apply(o vfOp) (err error, panicked bool) {
 			w.GR[o.Path] = g
 		}
 		return nil, false
+	case "reopen":
+		// end the session and start a new one on the same file: handles of the datasets known
+		// so far are re-acquired with OpenDataset (they then carry a parsed, cached header);
+		// group handles cannot be re-acquired and are dropped
+		if e := w.FW.Close(); e != nil {
+			return fmt.Errorf("reopen: close: %w", e), false
+		}
+		fw, e := OpenForWrite(w.Path, OpenReadWrite)
+		if e != nil {
+			return fmt.Errorf("reopen: %w", e), false
+		}
+		w.FW = fw
+		w.GR = map[string]*GroupWriter{}
+		paths := make([]string, 0, len(w.DS))
+		for p := range w.DS {
+			paths = append(paths, p)
+		}
+		sort.Strings(paths)
+		for _, p := range paths {
+			ds, e := fw.OpenDataset(p)
+			if e != nil {
+				delete(w.DS, p)
+				continue
+			}
+			w.DS[p] = ds
+		}
+		return nil, false
 	case "write":
 		ds := w.DS[o.Path]
 		if ds == nil {
@@ -376,6 +404,7 @@ var vfBadCalls = []string{
 	"mkds-array-without-dims", "mkds-enum-mismatch", "mkds-opaque-without-tag", "mkds-unknown-type", "mkds-duplicate", "mkds-missing-parent",
 	"mkgroup-empty", "mkgroup-relative", "mkgroup-root", "mkgroup-duplicate", "mkgroup-missing-parent", "mkgroup-over-dataset-name",
 	"attr-nil", "attr-unsupported-type", "attr-empty-slice", "attr-2d-slice", "attr-on-group-unsupported",
+	"attr-value-oversize", "attr-name-oversize",
 	"delattr-absent", "write-wrong-length", "write-wrong-type", "writeraw-wrong-size", "write-nil",
 	"resize-not-resizable", "resize-beyond-max", "resize-rank-mismatch", "resize-zero",
 	"hardlink-missing-target", "hardlink-duplicate-name", "hardlink-missing-parent", "hardlink-relative", "hardlink-to-root-path",
@@ -459,6 +488,11 @@ func vfApplyBad(w *vfWorld, o vfOp) error {
 		return vfAttrOn(w, o.Path, "badattr", []int32{})
 	case "attr-2d-slice":
 		return vfAttrOn(w, o.Path, "badattr", [][]int32{{1}, {2}})
+	case "attr-value-oversize":
+		// an encoded attribute message larger than 64 KiB
+		return vfAttrOn(w, o.Path, "badattr", make([]float64, 8200))
+	case "attr-name-oversize":
+		return vfAttrOn(w, o.Path, strings.Repeat("n", 65000), int32(1))
 	case "attr-on-group-unsupported":
 		return vfAttrOn(w, o.Path, "badattr", struct{ A int }{1})
 	case "delattr-absent":
